@@ -22,6 +22,13 @@ subset leaves the function out and the translator exits non-zero).  What is adde
   * primitives of PyPreludeTypes.lean: `socket.inet_*`, `str.encode()`, `bytes.decode("utf-8", "replace")`,
     `bytes.split(sep, 1)`, `bytes * n`, `int(x)`, `isinstance(x, C)` (closed world: the subclasses of C in C's module),
     `type(a) is type(b)`, `NotImplemented`.
+  * (frame object) property SETTERS (`Frame.data.setter` -> `Frame_data_set`); ABSTRACT methods and class variables without
+    a value (`create_message`, `decode_message`, `frame_type`) are a parameter `env : PyT.Env` of every translated method of
+    such a class (`self.create_message(d)` is `env "create_message" [self, d]`: result only, the callee is assumed not to
+    assign slots of the frame); `**kwargs` is one more dict parameter; `S.pack_into(buf, off, *fields)` and `buf.append(x)`
+    on a byte array CREATED in the same call (`bytearray(n)`, or the result of a property that returns such a fresh
+    array): value semantics are sound there; `x += …` on a name bound to the content of a slot is rejected (it would
+    change the object the slot holds).
 """
 import ast
 import os
@@ -40,6 +47,10 @@ TARGETS = []
 for _c in STRUCT_CLASSES + OTHER_CLASSES:
     for _m in METHODS + (["next"] if _c == "BitArray" else []):
         TARGETS.append((DT, f"{_c}.{_m}"))
+FR = "pyplumio/frames/__init__.py"
+FRAME_METHODS = ["__init__", "new", "message", "message.setter", "data", "data.setter", "length", "__len__", "header", "bytes"]
+for _m in FRAME_METHODS:
+    TARGETS.append((FR, f"Frame.{_m}"))
 TABLES = [(DT, "DATA_TYPES")]
 
 B.EXCEPTIONS.setdefault("AttributeError", "AttributeError")
@@ -59,6 +70,30 @@ def assigned_names(stmts):
 
 OBJ_NAMES = set()
 B.assigned_names = assigned_names
+
+
+class EmptyDict:
+    """the default of a `**kwargs` parameter"""
+
+
+EMPTY_DICT = EmptyDict()
+
+
+def show_default(v):
+    if isinstance(v, EmptyDict):
+        return "{}"
+    if isinstance(v, EnumMember):
+        return f"{v.cls}.{v.name}"
+    return repr(v)
+
+
+_orig_lean_value = B.lean_value
+
+
+def lean_value(v):  # noqa: F811
+    if isinstance(v, EmptyDict):
+        return "(V.dict [] [])"
+    return _orig_lean_value(v)
 
 
 def decorators(fn):
@@ -135,14 +170,45 @@ class TTranslator(B.Translator):
         if after is not None:
             idx = [c.name for _, c in chain].index(after.name)
             chain = chain[idx + 1:]
+        want_setter = name.endswith(".setter")
+        base = name[:-len(".setter")] if want_setter else name
         for m, c in chain:
             for st in c.body:
-                if isinstance(st, (ast.FunctionDef, ast.AsyncFunctionDef)) and st.name == name:
+                if isinstance(st, (ast.FunctionDef, ast.AsyncFunctionDef)) and st.name == base:
+                    is_setter = any(isinstance(d, ast.Attribute) and d.attr == "setter" for d in st.decorator_list)
+                    if is_setter != want_setter:
+                        continue
                     return ("method", m, c, st)
                 if isinstance(st, ast.Assign) and len(st.targets) == 1 and isinstance(st.targets[0], ast.Name) \
                         and st.targets[0].id == name:
                     return ("attr", m, c, st.value)
         return None
+
+    def needs_env(self, mod, cls):
+        """does the class, as seen from itself, leave a method abstract / a class variable without a value?  Its
+        translated methods then take the environment of those as a first parameter (`env : PyT.Env`)."""
+        for m, c in self.mro(mod, cls):
+            for st in c.body:
+                if isinstance(st, ast.FunctionDef) and is_abstract_body(st):
+                    found = self.member(mod, cls, st.name)
+                    if found and found[0] == "method" and is_abstract_body(found[3]):
+                        return True
+        return False
+
+    def classvar_without_value(self, mod, cls, name):
+        """`name: ClassVar[...]` declared along the chain and never given a value there"""
+        declared = False
+        for m, c in self.mro(mod, cls):
+            for st in c.body:
+                if isinstance(st, ast.AnnAssign) and isinstance(st.target, ast.Name) and st.target.id == name:
+                    ann = ast.unparse(st.annotation)
+                    if st.value is not None:
+                        return False
+                    if ann.startswith("ClassVar"):
+                        declared = True
+                if isinstance(st, ast.Assign) and any(isinstance(t, ast.Name) and t.id == name for t in st.targets):
+                    return False
+        return declared
 
     def subclasses(self, mod, cls):
         """names of cls and of its subclasses defined in cls's module (closed world for isinstance)"""
@@ -177,7 +243,7 @@ class TTranslator(B.Translator):
             return info
         if is_abstract_body(node):
             raise Unsupported(f"{cls.name}.{name} is abstract")
-        lname = f"{cls.name}_{name.strip('_') if name.startswith('__') else name.lstrip('_')}{suffix}"
+        lname = f"{cls.name}_{name.strip('_') if name.startswith('__') else name.lstrip('_')}{suffix}".replace(".setter", "_set")
         if name.startswith("_") and not name.startswith("__"):
             lname = f"{cls.name}_p_{name.lstrip('_')}{suffix}"
         if lname in self.names_used and self.names_used[lname] != key:
@@ -186,18 +252,26 @@ class TTranslator(B.Translator):
         decos = decorators(node)
         kind = "classmethod" if "classmethod" in decos else ("static" if "staticmethod" in decos else
                                                              ("property" if "property" in decos else "method"))
-        if kind == "static" or any(d.endswith("setter") for d in decos):
-            raise Unsupported(f"{key[1]}: static method / property setter")
+        if any(d == "setter" for d in decos):
+            kind = "setter"
+        if kind == "static":
+            raise Unsupported(f"{key[1]}: static method")
         info = dict(rel=mod.rel, qual=key[1], lean=lname, busy=True, is_async=isinstance(node, ast.AsyncFunctionDef),
-                    cls=dcls, kind=kind, concrete=(mod, cls), has_self=(kind != "classmethod"), ret_class=None)
+                    cls=dcls, kind=kind, concrete=(mod, cls), has_self=(kind != "classmethod"), ret_class=None,
+                    env=self.needs_env(mod, cls))
         self.funcs[key] = info
         a = node.args
-        if a.vararg or a.kwarg or a.kwonlyargs or a.posonlyargs:
-            raise Unsupported(f"{key[1]}: *args / **kwargs / keyword-only parameters")
+        if a.vararg or a.kwonlyargs or a.posonlyargs:
+            raise Unsupported(f"{key[1]}: *args / keyword-only parameters")
         params = [p.arg for p in a.args][1:]
         defaults = {}
         for p, d in zip(reversed(a.args), reversed(a.defaults)):
             defaults[p.arg] = self.fold(dmod, d)
+        if a.kwarg:
+            # `**kwargs`: one more parameter, the dict of the extra keyword arguments (callers pass a dict display)
+            params.append(a.kwarg.arg)
+            defaults[a.kwarg.arg] = EMPTY_DICT
+        info["kwarg"] = a.kwarg.arg if a.kwarg else None
         info["params"], info["defaults"] = params, defaults
         info["needs_fuel"] = any(isinstance(n, ast.While) for n in ast.walk(node))
         fn = MTranslator(self, dmod, dcls, node, info)
@@ -209,10 +283,11 @@ class TTranslator(B.Translator):
         info["needs_fuel"] = fn.needs_fuel
         info["mutates"] = fn.mutates
         info["busy"] = False
-        sig = ("" if kind == "classmethod" else " (v_self : V)") + "".join(f" (v_{p} : V)" for p in params)
+        sig = (" (env : PyT.Env)" if info["env"] else "") + ("" if kind == "classmethod" else " (v_self : V)") + \
+            "".join(f" (v_{p} : V)" for p in params)
         fuel = " (fuel : Nat)" if info["needs_fuel"] else ""
         ret = "PyM V" if kind == "classmethod" else "PyM (V × V)"
-        dflt = ("; defaults: " + ", ".join(f"{k}={v!r}" for k, v in defaults.items())) if defaults else ""
+        dflt = ("; defaults: " + ", ".join(f"{k}={show_default(v)}" for k, v in defaults.items())) if defaults else ""
         head = [f"/-- `{dmod.rel}`: `{dcls.name}.{name}` (line {node.lineno}) as seen from class `{cls.name}`"
                 f" ({kind}){dflt} -/",
                 f"def {lname}{fuel}{sig} : {ret} := do"]
@@ -233,13 +308,13 @@ class TTranslator(B.Translator):
         self.names_used[lname] = key
         info = dict(rel=mod.rel, qual=key[1], lean=lname, busy=False, is_async=False, cls=cls, kind="constructor",
                     concrete=(mod, cls), has_self=False, params=init["params"], defaults=init["defaults"],
-                    needs_fuel=init["needs_fuel"], ret_class=(mod, cls))
+                    needs_fuel=init["needs_fuel"], ret_class=(mod, cls), env=init.get("env", False), kwarg=init.get("kwarg"))
         self.funcs[key] = info
-        sig = "".join(f" (v_{p} : V)" for p in info["params"])
+        sig = (" (env : PyT.Env)" if info["env"] else "") + "".join(f" (v_{p} : V)" for p in info["params"])
         fuel = " (fuel : Nat)" if info["needs_fuel"] else ""
         args = "".join(f" v_{p}" for p in info["params"])
         body = [f"let v_self := PyT.newobj {lean_str(cls.name)} [{', '.join(lean_str(s) for s in slots)}]",
-                f"let (_, v_self) ← {init['lean']}{' fuel' if info['needs_fuel'] else ''} v_self{args}",
+                f"let (_, v_self) ← {init['lean']}{' fuel' if info['needs_fuel'] else ''}{' env' if info['env'] else ''} v_self{args}",
                 "pure v_self"]
         head = [f"/-- `{mod.rel}`: `{cls.name}(...)` = `object.__new__` (slots {slots}) + `__init__` -/",
                 f"def {lname}{fuel}{sig} : PyM V := do"]
@@ -247,7 +322,7 @@ class TTranslator(B.Translator):
         return info
 
     def function(self, rel, qual):
-        parts = qual.split(".")
+        parts = qual.split(".", 1)
         if len(parts) == 2:
             mod = self.repo.module(rel)
             c = self.class_of(mod, parts[0])
@@ -299,7 +374,8 @@ class TTranslator(B.Translator):
                 continue
             n = len(info["params"]) + (1 if info["has_self"] else 0)
             pat = "[" + ", ".join(f"a{i}" for i in range(n)) + "]"
-            app = info["lean"] + (" fuel" if info["needs_fuel"] else "") + "".join(f" a{i}" for i in range(n))
+            app = info["lean"] + (" fuel" if info["needs_fuel"] else "") + (" PyT.testEnv" if info.get("env") else "") + \
+                "".join(f" a{i}" for i in range(n))
             if info["has_self"]:
                 app = f"do let (r, s) ← {app}; pure (V.tuple [r, s])"
             out.append(f"  | {lean_str(info['qual'])}, {pat} => some ({app})")
@@ -319,7 +395,9 @@ class MTranslator(B.FnTranslator):
         self.mutates = False      # the method assigns a slot of `self` (directly or through a method it calls)
         self.kind = info.get("kind", "function")
         self.concrete = info.get("concrete")
-        if self.kind in ("method", "property"):
+        self.fresh_bufs = set()   # locals bound to a bytearray created in this call (mutation cannot be seen elsewhere)
+        self.alias_names = set()  # locals bound to the content of a slot / the result of a property (may alias a slot)
+        if self.kind in ("method", "property", "setter"):
             self.bound.add("self")
             self.vclass["self"] = self.concrete
         a = node.args
@@ -355,7 +433,7 @@ class MTranslator(B.FnTranslator):
                                   ast.Delete, ast.Assert, ast.Match)):
                     self.fail(n, type(n).__name__)
             self.check_self()
-            if self.kind in ("method", "property"):
+            if self.kind in ("method", "property", "setter"):
                 self.ret = lambda atom: [f"pure ({atom}, v_self)"]
                 end = lambda: ["pure (V.none, v_self)"]
             else:
@@ -496,8 +574,21 @@ class MTranslator(B.FnTranslator):
         if rebind and self.nested:
             # inside a nested scope (lambda / short-circuit operand) the re-binding would not escape
             raise Unsupported(f"{self.mod.rel} in {self.info['qual']}: method call on `{rebind}` inside a nested scope")
-        lines.append(f"let ({t}, {tgt}) ← {info['lean']}{fuel} {obj_atom}" + "".join(" " + a for a in args))
+        lines.append(f"let ({t}, {tgt}) ← {info['lean']}{fuel}{self.env_arg(info)} {obj_atom}" + "".join(" " + a for a in args))
         return lines, t
+
+    def env_arg(self, info):
+        if not info.get("env"):
+            return ""
+        if not self.info.get("env"):
+            raise Unsupported(f"{self.mod.rel} in {self.info['qual']}: call of {info['qual']}, whose class has abstract members, "
+                              "from code that has no environment for them")
+        return " env"
+
+    def env_call(self, lines, name, args):
+        if not self.info.get("env"):
+            raise Unsupported(f"{self.mod.rel} in {self.info['qual']}: abstract member {name} used from a class without environment")
+        return lines, self.bind(lines, f"env {lean_str(name)} [{', '.join(['v_self'] + args)}]")
 
     def e_Attribute(self, n):
         # self.x / obj.x
@@ -528,6 +619,8 @@ class MTranslator(B.FnTranslator):
                     self.fail(n, "struct object used as a value")
                 return [], lean_value(v)
             if n.attr not in self.tr.slots(*c):
+                if isinstance(n.value, ast.Name) and n.value.id == "self" and self.tr.classvar_without_value(c[0], c[1], n.attr):
+                    return self.env_call([], n.attr, [])
                 self.fail(n, f"attribute .{n.attr}: neither a slot, a property nor a class attribute of {c[1].name}")
             lines, a, _ = self.recv(n.value)
             return lines, self.bind(lines, f"PyT.getattr {a} {lean_str(n.attr)}")
@@ -592,7 +685,7 @@ class MTranslator(B.FnTranslator):
         if isinstance(f, ast.Attribute):
             # super().m(...)
             if isinstance(f.value, ast.Call) and isinstance(f.value.func, ast.Name) and f.value.func.id == "super" \
-                    and not f.value.args and self.concrete and self.kind in ("method", "property"):
+                    and not f.value.args and self.concrete and self.kind in ("method", "property", "setter"):
                 info = self.tr.method(self.concrete[0], self.concrete[1], f.attr, after=self.cls)
                 lines, args = self.args_for(n, info)
                 return self.call_method(lines, info, "v_self", "self", args)
@@ -614,12 +707,18 @@ class MTranslator(B.FnTranslator):
                 info = self.tr.method(tgt[1][0], tgt[1][1], f.attr)
                 lines, args = self.args_for(n, info)
                 fuel = " fuel" if info["needs_fuel"] else ""
-                return lines, self.bind(lines, f"{info['lean']}{fuel}" + "".join(" " + a for a in args))
+                return lines, self.bind(lines, f"{info['lean']}{fuel}{self.env_arg(info)}" + "".join(" " + a for a in args))
             if tgt and tgt[0] == "instance":
                 c = tgt[1]
                 m = self.tr.member(c[0], c[1], f.attr)
                 if not m or m[0] != "method":
                     self.fail(n, f"{c[1].name} has no method {f.attr}")
+                if is_abstract_body(m[3]):
+                    # an abstract method of the class as seen from here: a parameter of the translation
+                    if not (isinstance(f.value, ast.Name) and f.value.id == "self") or n.keywords:
+                        self.fail(n, f"abstract method {f.attr} on something other than self / with keywords")
+                    lines, atoms = self.seq(n.args)
+                    return self.env_call(lines, f.attr, atoms)
                 info = self.tr.method(c[0], c[1], f.attr)
                 if info["kind"] != "method":
                     self.fail(n, f"call of {info['kind']} {f.attr}")
@@ -670,7 +769,7 @@ class MTranslator(B.FnTranslator):
         fuel = " fuel" if info["needs_fuel"] else ""
         if info["needs_fuel"]:
             self.needs_fuel = True
-        return lines, self.bind(lines, f"{info['lean']}{fuel}" + "".join(" " + a for a in args))
+        return lines, self.bind(lines, f"{info['lean']}{fuel}{self.env_arg(info)}" + "".join(" " + a for a in args))
 
     def socket_call(self, n, attr):
         if n.keywords:
@@ -693,7 +792,48 @@ class MTranslator(B.FnTranslator):
             c = self.vclass.get(st.value.id)
             if c:
                 self.info["ret_class"] = c
+            if st.value.id in self.fresh_bufs:
+                self.info["returns_fresh"] = True
+        if isinstance(st, ast.Expr) and isinstance(st.value, ast.Call) and isinstance(st.value.func, ast.Attribute):
+            v, f = st.value, st.value.func
+            # buf.append(x) on a byte array created in this call
+            if f.attr == "append" and isinstance(f.value, ast.Name) and f.value.id in self.fresh_bufs and len(v.args) == 1 \
+                    and not v.keywords:
+                if self.nested:
+                    self.fail(st, "mutation of a local inside a nested scope")
+                out.append("-- " + self.src(st))
+                lines, a = self.expr(v.args[0])
+                out += lines
+                out.append(f"let v_{f.value.id} ← PyT.bytearray_append v_{f.value.id} {a}")
+                return False
+            # S.pack_into(buf, offset, *fields) on a byte array created in this call
+            stf = self.struct_of(f.value)
+            if stf is not None and f.attr == "pack_into":
+                if v.keywords or len(v.args) < 2 or not (isinstance(v.args[0], ast.Name) and v.args[0].id in self.fresh_bufs) \
+                        or any(isinstance(a, ast.Starred) for a in v.args) or self.nested:
+                    self.fail(st, "pack_into argument form (a byte array created in this call, offset, fields)")
+                out.append("-- " + self.src(st))
+                lines, atoms = self.seq(v.args[1:])
+                out += lines
+                name = v.args[0].id
+                out.append(f"let v_{name} ← PyT.struct_pack_into {lean_str(stf.fmt)} v_{name} {atoms[0]} [{', '.join(atoms[1:])}]")
+                return False
         return super().stmt(st, rest, k, out)
+
+    def is_fresh_expr(self, value):
+        """does the expression create a byte array nobody else holds?"""
+        if isinstance(value, ast.Call) and isinstance(value.func, ast.Name) and value.func.id == "bytearray" \
+                and "bytearray" not in self.bound:
+            return True
+        if isinstance(value, ast.Attribute) and isinstance(value.value, ast.Name) and value.value.id in self.vclass:
+            c = self.vclass[value.value.id]
+            m = self.tr.member(c[0], c[1], value.attr)
+            if m and m[0] == "method" and "property" in decorators(m[3]):
+                return bool(self.tr.method(c[0], c[1], value.attr).get("returns_fresh"))
+        return False
+
+    def may_alias(self, value):
+        return isinstance(value, ast.Attribute) and isinstance(value.value, ast.Name) and value.value.id in self.vclass
 
     def assign(self, st, out):
         target = st.targets[0] if isinstance(st, ast.Assign) and len(st.targets) == 1 else getattr(st, "target", None)
@@ -714,9 +854,21 @@ class MTranslator(B.FnTranslator):
             c = self.ctype(value)
             if c is None and isinstance(st, ast.AnnAssign):
                 c = self.ann_class(st.annotation)
+            fresh = self.is_fresh_expr(value)
             super().assign(st, out)
             self.set_class(target.id, c)
+            self.fresh_bufs.discard(target.id)
+            self.alias_names.discard(target.id)
+            if fresh:
+                if self.nested or self.loop is not None:
+                    self.fail(st, "byte array created inside a loop / nested scope")
+                self.fresh_bufs.add(target.id)
+            elif self.may_alias(value):
+                self.alias_names.add(target.id)
             return
+        if isinstance(st, ast.AugAssign) and isinstance(st.target, ast.Name) and st.target.id in self.alias_names:
+            # `x = self.message; x += …` would change the byte array the slot holds
+            self.fail(st, f"augmented assignment to `{st.target.id}`, which may be the very object a slot holds")
         super().assign(st, out)
 
 
